@@ -7,8 +7,8 @@ SRC = vfw.OBJ_SOURCES + ['validator']
 
 
 def run(fw):
-    n = 4 if fw.tier == 'quick' else 8
-    ncp = 2 if fw.tier == 'quick' else 4
+    n = 6 if fw.tier == 'quick' else 8
+    ncp = 3 if fw.tier == 'quick' else 4
     defs = ['MAXLEN=%d' % n, 'NCP=%d' % ncp, 'VSTD_STR_CAP=23']
     ms = dict(vfw.pmap(lambda r: (r, fw.build_model('c04_' + r, H, [r], sources=SRC, defines=defs)), ROOTS, 2))
     mws = dict(vfw.pmap(lambda r: (r, fw.build_model('c04w_' + r, H, [r], sources=SRC, defines=defs + ['WITNESS'])), ROOTS, 2))
